@@ -351,7 +351,6 @@ func ruleC09WrapperShape(c *Ctx) {
 	}
 	// Encrypt / EncryptString non-None arms
 	for _, f := range []*FuncInfo{p.encrypt, encString} {
-		info := f.Pkg.TypesInfo
 		fmtParam := paramVar(f, "encryptionFormat")
 		var plain *types.Var
 		if f == p.encrypt {
@@ -377,10 +376,21 @@ func ruleC09WrapperShape(c *Ctx) {
 				name := arm.Labels[0].Name()
 				cryptoCall := false
 				n := 0
-				for _, st := range arm.Body {
+				// an arm that is only `return helper(args...)` is judged on the helper's body (plaintext parameter re-bound)
+				bf, body, bplain := f, arm.Body, plain
+				if g, bind := c.armDelegate(f, arm.Body); g != nil {
+					if hp := bind[plain]; hp != nil {
+						bf, body, bplain = g, g.Body().List, hp
+					}
+				}
+				binfo := bf.Pkg.TypesInfo
+				for _, st := range body {
 					ast.Inspect(st, func(x ast.Node) bool {
+						if _, ok := x.(*ast.FuncLit); ok {
+							return false
+						}
 						if call, ok := x.(*ast.CallExpr); ok {
-							if fn, ok := calleeObj(info, call).(*types.Func); ok && fn.Name() == "Encrypt" && !inRepo(fn) {
+							if fn, ok := calleeObj(binfo, call).(*types.Func); ok && fn.Name() == "Encrypt" && !inRepo(fn) {
 								cryptoCall = true
 							}
 						}
@@ -391,12 +401,12 @@ func ruleC09WrapperShape(c *Ctx) {
 						n++
 						leaks := false
 						if len(ret.Results) >= 2 {
-							if usesObj(info, ret.Results[0], plain) {
+							if usesObj(binfo, ret.Results[0], bplain) {
 								leaks = true
 							}
 						} else if call, ok := ast.Unparen(ret.Results[0]).(*ast.CallExpr); ok {
 							// single multi-value call: must be the crypto library's Encrypt
-							fn, _ := calleeObj(info, call).(*types.Func)
+							fn, _ := calleeObj(binfo, call).(*types.Func)
 							if fn == nil || fn.Name() != "Encrypt" || inRepo(fn) {
 								leaks = true
 							}
